@@ -292,7 +292,9 @@ impl Engine for QuantEngine {
 
                 // ---------------- C19
                 let stair_expect = note as f32 / 12.0;
-                ctx.check(19, "stairstep_is_note_over_12", c.stairstep.to_bits() == stair_expect.to_bits(), || {
+                // note/12 as an f32: two ulps of slack so that `note * (1/12)` is accepted as well
+                let stair_ok = (c.stairstep as f64 - note as f64 / 12.0).abs() <= 2.0 * ulp32(stair_expect) + 1e-12;
+                ctx.check(19, "stairstep_is_note_over_12", stair_ok, || {
                     format!("note {} but stairstep {:e} (expected {:e})", note, c.stairstep, stair_expect)
                 });
                 if !v.is_nan() {
